@@ -304,6 +304,24 @@ class Hierarchy:
         self.ops = ops
         return ops
 
+    def build_staged(self, rng):
+        """Like build(), but - for every other hierarchy - one leaf base type is declared only
+        after the others have been compared with each other (users extend a taxonomy while
+        working with it); what is asked afterwards must reflect the taxonomy as it is then."""
+        leaves = [i for i in range(5, 5 + self.nbase) if i in self.parents and i not in self.parents.values()]
+        if not leaves or rng.random() < 0.5:
+            return self.build()
+        late = rng.choice(leaves)
+        self.late = late
+        ops = self.build(skip={late})
+        base = [ops[i] for i in range(5, 5 + self.nbase) if i != late]
+        for a in base:
+            for b_ in base:
+                a().is_subtype(b_())
+                a().is_subtype(b_(), strict=True)
+        self.build_late(late)
+        return self.ops
+
     def build_late(self, i: int):
         """Declare base type i now (its parent must exist already)."""
         import transforge.type as T
@@ -330,9 +348,12 @@ class Hierarchy:
         return f"(mk_hier {ps} {vs})"
 
     def to_json(self):
-        return {"parents": {str(k): v for k, v in self.parents.items()},
-                "variances": {str(k): v for k, v in self.variances.items()},
-                "nbase": self.nbase}
+        d = {"parents": {str(k): v for k, v in self.parents.items()},
+             "variances": {str(k): v for k, v in self.variances.items()},
+             "nbase": self.nbase}
+        if getattr(self, "late", None) is not None:
+            d["declared_after_first_comparisons"] = self.late     # see build_staged
+        return d
 
     @staticmethod
     def from_json(d) -> "Hierarchy":
